@@ -55,7 +55,7 @@ type Prev struct {
 }
 
 var (
-	certFiles   = []string{"", "rsa", "ec", "missing", "garbage"}
+	certFiles   = []string{"", "rsa", "ec", "missing", "garbage", "ecchain"}     // ecchain: the ec certificate followed by its issuer (a "fullchain" file) (r8)
 	keyFiles    = []string{"", "rsa", "ec", "missing", "garbage", "rsa2", "ec2"} // rsa2/ec2: valid keys of the same algorithm that belong to no certificate here
 	loadedCerts = []string{"", "rsa", "ec"}
 	loadedKeys  = []string{"", "rsa", "ec", "ed25519", "rsa2", "ec2"}
@@ -191,6 +191,7 @@ type expectation struct {
 	mustErr  string     // non-empty: the client certificate or key material is unusable, an error is required
 	mayErr   string     // non-empty: an error is admissible (the statement leaves the situation open)
 	leaf     string     // the client certificate the configuration must present ("" none)
+	chain    bool       // ... followed by its issuer, as the certificate file holds both
 	rootsNil bool       // no root supplied: RootCAs nil (system pool)
 	rootSets [][]string // admissible sets of trusted roots when rootsNil is false
 	insecure bool       // InsecureSkipVerify
@@ -208,10 +209,11 @@ func (c Case) expect() expectation {
 			e.mustErr = "certificate file without key file"
 		case c.KeyFile == "missing" || c.KeyFile == "garbage":
 			e.mustErr = "key file is " + c.KeyFile
-		case c.KeyFile != c.CertFile:
+		case c.KeyFile != strings.TrimSuffix(c.CertFile, "chain"):
 			e.mustErr = "key file does not match the certificate file"
 		default:
-			e.leaf = c.CertFile
+			e.leaf = strings.TrimSuffix(c.CertFile, "chain")
+			e.chain = strings.HasSuffix(c.CertFile, "chain")
 		}
 		if c.LoadedCert != "" || c.LoadedKey != "" {
 			e.mayErr = "certificate supplied both as file and in memory"
@@ -508,7 +510,11 @@ func judge(entry string, c Case, e expectation, m *material, l *live, cfg *tls.C
 			return nil, kit.Failf("%s: want exactly the %s client certificate, the configuration carries %d certificates", what, e.leaf, len(cfg.Certificates))
 		}
 		got := cfg.Certificates[0]
-		if len(got.Certificate) != 1 || !bytes.Equal(got.Certificate[0], want.Raw) {
+		if e.chain {
+			if len(got.Certificate) != 2 || !bytes.Equal(got.Certificate[0], want.Raw) || !bytes.Equal(got.Certificate[1], m.cas["ca"].Raw) {
+				return nil, kit.Failf("%s: the certificate file holds the %s certificate followed by its issuer; the configuration presents a chain of %d element(s), want exactly those two", what, e.leaf, len(got.Certificate))
+			}
+		} else if len(got.Certificate) != 1 || !bytes.Equal(got.Certificate[0], want.Raw) {
 			return nil, kit.Failf("%s: the client certificate chain (%d elements) is not exactly the supplied %s certificate", what, len(got.Certificate), e.leaf)
 		}
 		signer, ok := got.PrivateKey.(crypto.Signer)
